@@ -75,7 +75,7 @@ for s in sites:
         elif fn.endswith("get_true_branch") or fn.endswith("get_false_branch"): e=D("C12_branch_targets_exist_and_are_succs","the true target and a recorded false target of the final if-then-else are existing blocks."+KEEP)
         else: e=D("C12_preds_succs_mirror","every member of a successor or predecessor set names an existing block, so every index reached by the closure loops is in the graph."+KEEP)
     elif f.endswith("control_flow_graph/lifting.rs"):
-        e=D("C01_lift_never_panics_on_desugared_shape C12_lift_never_panics","Model.Lift has both assert!s and every indexing of lifting.rs as Panic sites; lift returns Ok for every body that is a block whose initialisation blocks hold straight-line entries only (C12: leaves only; C01 extends it to the blocks of substitutions the desugarer puts there). That desugared bodies have this shape follows from the grammar (ParseBlock bodies, initialisation blocks built by split_declaration_*) and the two rewriting arms of the desugarer; it is not a Coq theorem (observed by the C12/C13 correspondence on the real into_cfg)")
+        e=D("C01_lift_never_panics_on_desugared_shape C01_desugar_output_has_desugared_shape C12_lift_never_panics","Model.Lift has both assert!s and every indexing of lifting.rs as Panic sites; lift returns Ok for every body that is a block whose initialisation blocks hold straight-line entries only (C12: leaves only; C01 extends it to the blocks of substitutions the desugarer puts there). That desugared bodies have this shape is C01_desugar_output_has_desugared_shape (through C18_desugar_refines_expand), given that the initialisation blocks of the parsed body hold declarations and (multi-)substitutions only (the grammar: ParseBlock bodies, initialisation blocks built by split_declaration_*; observed by the C12/C13 correspondence on the real into_cfg); composed in C01_pipeline_mirrors_never_panic")
     elif f.endswith("ssa_impl.rs"):
         if fn.endswith("ensure_phi_argument"):
             e=G("caller checks","the only caller, update_phi_statements (static_single_assignment/traits.rs), calls ensure_phi_argument under `if stmt.is_phi_statement()`, which matches exactly the arm that does not panic; Model.Ssa.update_phis has the same guard",guard_in={"file":"program_structure/src/static_single_assignment/traits.rs","text":"if stmt.is_phi_statement() { stmt.ensure_phi_argument(env); }"})
@@ -86,7 +86,7 @@ for s in sites:
         elif fn=="update_declarations":
             e=G("non-empty range","the Vec converted into a NonEmptyVec holds one name per version of `get_version_range(name).unwrap_or(0..1)`; get_version_range yields 0..(max + 1), so the range is never empty",guard_text=".unwrap_or(0..1)")
         else:
-            e=D("C01_into_ssa_never_panics","Model.Ssa (C14) has this site as SPanic; into_ssa never returns SPanic on a graph whose variables are still unversioned (IR lifting builds names with from_string / with_suffix only; observed by the C14 correspondence) and whose dominator-tree children lists satisfy three order facts that C15_idom_exact / C15_dom_tree_children_invert_idom / C12_dom_implies_le state in their own types (child index larger than parent and in range, no duplicates, unique parent); the translation of those theorems into the list form of the hypothesis is not mechanised")
+            e=D("C01_into_ssa_never_panics C01_lifted_children_order_facts","Model.Ssa (C14) has this site as SPanic; into_ssa never returns SPanic on a graph whose variables are still unversioned (IR lifting builds names with from_string / with_suffix only; observed by the C14 correspondence) and whose dominator-tree children lists satisfy three order facts (child index larger than parent and in range, no duplicates, unique parent), which C01_lifted_children_order_facts proves for the tree that DominatorTree::new computes on every lifted graph (from the invariant of idom_loop, C15_idom_unique and C12_dom_implies_le); C01_into_ssa_fuel_suffices excludes SFuel of the mirror, so a later panic is not masked; composed in C01_pipeline_mirrors_never_panic")
     elif f.endswith("unique_vars.rs"):
         e=G("grammar","the body of every definition is built by the ParseBlock production (and rebuilt by build_block in the desugarer); C10_pass_never_panics then covers the pass on every block",guard_in={"file":"parser/src/lang.lalrpop","text":"<arge:@R> \")\" <body: ParseBlock> <e:@R>"})
     elif f.endswith("declarations.rs"):
@@ -111,7 +111,7 @@ for s in sites:
         elif s["line"]>75 and k=="expect":
             e=D("C12_preds_succs_mirror","the members of a successor set name existing blocks (Model.Ssa.update_succ_phis is a total list update, so this site is not covered by C01_into_ssa_never_panics). The theorem is about the graph as lifted; phi insertion changes statements only")
         else:
-            e=D("C01_into_ssa_never_panics","Model.Ssa (C14) has this site as SPanic; into_ssa never returns SPanic on a graph whose variables are still unversioned (IR lifting builds names with from_string / with_suffix only; observed by the C14 correspondence) and whose dominator-tree children lists satisfy three order facts that C15_idom_exact / C15_dom_tree_children_invert_idom / C12_dom_implies_le state in their own types (child index larger than parent and in range, no duplicates, unique parent); the translation of those theorems into the list form of the hypothesis is not mechanised")
+            e=D("C01_into_ssa_never_panics C01_lifted_children_order_facts","Model.Ssa (C14) has this site as SPanic; into_ssa never returns SPanic on a graph whose variables are still unversioned (IR lifting builds names with from_string / with_suffix only; observed by the C14 correspondence) and whose dominator-tree children lists satisfy three order facts (child index larger than parent and in range, no duplicates, unique parent), which C01_lifted_children_order_facts proves for the tree that DominatorTree::new computes on every lifted graph (from the invariant of idom_loop, C15_idom_unique and C12_dom_implies_le); C01_into_ssa_fuel_suffices excludes SFuel of the mirror, so a later panic is not masked; composed in C01_pipeline_mirrors_never_panic")
     elif f.endswith("environment.rs"):
         m=fn.split("::")[-1]
         if m in ("remove_variable_block","add_variable"):
